@@ -42,6 +42,16 @@ func c18Timeout(op c18Op) time.Duration {
 		return 100 * 365 * 24 * time.Hour
 	case 7:
 		return time.Duration(math.MaxInt64) - time.Duration(rand18(op))
+	case 8:
+		return -time.Nanosecond
+	case 9:
+		return -time.Millisecond
+	case 10:
+		return time.Duration(math.MinInt64)
+	case 11:
+		return time.Nanosecond
+	case 12:
+		return time.Hour
 	}
 	return time.Duration(op.A) * c18ms
 }
@@ -64,6 +74,10 @@ func c18LimitInterp(t *testing.T, c c18Case, timed bool) kit.Verdict {
 	v := c18NewV()
 	c18CaseClasses(v, c)
 	v.class(fmt.Sprintf("n=%d", c.N))
+	size := func(m int) int { n, _ := c18Settings(c, m); return n }
+	if c.D && c.N2 != c.N {
+		v.class("two-instances-with-different-sizes")
+	}
 	full, res := c18PlayRounds(t, c, !timed, func(clk *c18Clock, log *c18Log) (func(g, i int, op c18Op), func()) {
 		// two limits of the same size live side by side; op.M picks one
 		lims := make([]c18Limiter, c18Inst)
@@ -71,10 +85,10 @@ func c18LimitInterp(t *testing.T, c c18Case, timed bool) kit.Verdict {
 		tls := make([]syncx.TimeoutLimit, c18Inst)
 		for m := 0; m < c18Inst; m++ {
 			if timed {
-				tls[m] = syncx.NewTimeoutLimit(c.N)
+				tls[m] = syncx.NewTimeoutLimit(size(m))
 				lims[m] = tls[m]
 			} else {
-				plains[m] = syncx.NewLimit(c.N)
+				plains[m] = syncx.NewLimit(size(m))
 				lims[m] = plains[m]
 			}
 		}
@@ -100,6 +114,48 @@ func c18LimitInterp(t *testing.T, c c18Case, timed bool) kit.Verdict {
 					panic(c18Panic{"limit holder"})
 				}
 			})
+		}
+		// Rescue: a timed borrow with an extreme timeout whose wake-up was lost
+		// (tolerated same-instant race) would wait until the end of representable
+		// time. After every scripted activity must be over, a helper goroutine
+		// borrows and returns a slot a few times on each instance - ordinary,
+		// recorded operations - which signals such a waiter.
+		var helperDone chan struct{}
+		if timed {
+			horizon, extremes := 10, 0
+			for _, g := range c.Gs {
+				for _, o := range g {
+					horizon += o.G + o.H
+					if o.K == "borrow" && o.E == 0 {
+						horizon += o.A
+					}
+					if o.K == "borrow" && o.E != 0 {
+						extremes++
+						horizon += 3700 * 1000 // E=12 is one hour
+					}
+				}
+			}
+			if extremes > 0 {
+				helperDone = make(chan struct{})
+				go func() {
+					defer close(helperDone)
+					time.Sleep(time.Duration(horizon) * c18ms)
+					for k := 0; k <= extremes; k++ {
+						for m := 0; m < c18Inst; m++ {
+							op := c18Op{K: "try", M: m}
+							ev := c18Ev{G: -1, I: k*c18Inst + m, Op: op, Sub: "try"}
+							ev.Inv = clk.now()
+							ev.OK = lims[m].TryBorrow()
+							ev.Ret = clk.now()
+							log.ev(ev)
+							if ev.OK {
+								ret(-1, k*c18Inst+m, op, "return")
+							}
+						}
+						time.Sleep(c18ms)
+					}
+				}()
+			}
 		}
 		return func(g, i int, op c18Op) {
 			switch op.K {
@@ -133,7 +189,11 @@ func c18LimitInterp(t *testing.T, c c18Case, timed bool) kit.Verdict {
 			case "ret":
 				ret(g, i, op, "unmatched-return")
 			}
-		}, nil
+		}, func() {
+			if helperDone != nil {
+				<-helperDone
+			}
+		}
 	})
 
 	for _, ev := range full.evs {
@@ -150,6 +210,8 @@ func c18LimitInterp(t *testing.T, c c18Case, timed bool) kit.Verdict {
 	if len(log.evs) == 0 {
 		continue
 	}
+	c := c
+	c.N = size(inst)
 	what := "limit"
 	if timed {
 		what = "timeout-limit"
@@ -223,7 +285,9 @@ func c18LimitInterp(t *testing.T, c c18Case, timed bool) kit.Verdict {
 			}
 			if timed {
 				to := c18Timeout(ev.Op)
-				if ev.Op.E != 0 {
+				if ev.Op.E >= 8 && ev.Op.E <= 10 {
+					v.class("negative-timeout")
+				} else if ev.Op.E != 0 {
 					v.class("extreme-timeout")
 					if waited > 0 && ev.OK {
 						v.class("extreme-timeout-borrow-blocked-then-woken")
@@ -346,12 +410,15 @@ func c18LimitGen(timed bool) func(rt *rapid.T) c18Case {
 			if timed && op.K == "borrow" {
 				op.A = rapid.SampledFrom([]int{0, 1, 2, 2, 3, 4, 5, 8}).Draw(rt, "timeout")
 				if rapid.IntRange(0, 5).Draw(rt, "extreme") == 0 {
-					op.E = rapid.IntRange(1, 7).Draw(rt, "extremeKind")
+					op.E = rapid.IntRange(1, 12).Draw(rt, "extremeKind")
 				}
 			}
 			return op
 		})
 		c18DrawInstances(rt, c.Gs)
+		if rapid.IntRange(0, 1).Draw(rt, "differentSizes") == 0 {
+			c.D, c.N2 = true, rapid.IntRange(1, 3).Draw(rt, "n2")
+		}
 		return c
 	}
 }
